@@ -33,6 +33,9 @@ const Big35 = "12345678901234567890123456787.623456"
 // Eps is the smallest credit unit at precision 6.
 const Eps = "0.000001"
 
+// Big35b has 35 significant digits and ends in a digit that rounding at 34 digits changes.
+const Big35b = "12345678901234567890123456789.000003"
+
 func fmtRat(r *big.Rat) string {
 	s := r.FloatString(6)
 	if strings.Contains(s, ".") {
